@@ -7,6 +7,8 @@ import CoupeModel.Driver.Util
 ops (see `harness/src/props/c11.rs`):
 * `mj <D> <threads> <parts> <maxiter> <n> <w…> <coords point-major>`
 * `mjs <scale code> <D> <threads> <parts> <maxiter> <n> <w…> <coords>` (weights times a scale)
+* `mjx <ctrans> <D> <threads> <parts> <maxiter> <n> <w…> <coords> <nz> <idx…>` (signed zeros, coordinate maps)
+* `mjc <pool> <calls> <D|0> <parts> <maxiter> <n> <cshape> <wshape> <seed>` (calling contexts)
 * `split <threads> <den> <k> <m…> <nw> <w…> <np> <perm…>`
 * `scheme <parts> <maxiter>`
 * `splitmany <len> <k> <p…>`
@@ -337,10 +339,50 @@ def handle (toks : List String) : String :=
       let n ← parseNat? n
       let (ws, rest) ← takeParsed parseNat? n rest
       let (cs, rest) ← takeParsed parseInt? (n * d) rest
-      if rest.isEmpty && (d == 2 || d == 3) && scale ≤ 9 then some (scale, d, parts, mi, n, ws, cs) else none) with
+      if rest.isEmpty && (d == 2 || d == 3) && scale ≤ 14 then some (scale, d, parts, mi, n, ws, cs) else none) with
     | none => "bad-op"
     | some (scale, d, parts, mi, n, ws, cs) =>
-      if scale < 7 then "skip decimal-scale (oracle only)" else handleMj d parts mi n ws cs
+      -- 10: 2^1000 (totals just below overflow; the sum of the integer weights must stay below
+      -- 2^24), 11: 2^-1022 (the smallest normal number as the unit) – exact like 7..9;
+      -- 12..14: 1e-310, 5e-324, 2^-1040 (subnormal weights: the code's products round on the
+      -- subnormal grid, oracle only)
+      if scale == 10 && ws.sum ≥ 2 ^ 24 then "bad-op"
+      else if scale < 7 then "skip decimal-scale (oracle only)"
+      else if scale > 11 then "skip subnormal-scale (oracle only)"
+      else handleMj d parts mi n ws cs
+  | "mjx" :: _ctrans :: d :: _threads :: parts :: mi :: n :: rest =>
+    -- special values: the listed points carry -0.0 instead of +0.0 (weights / coordinates that
+    -- are zero) and the coordinates go through an order-preserving map (identity, x 1e36,
+    -- 600000 + c/1000); the model ignores zero signs and the map: it predicts the plain run
+    match (do
+      let d ← parseNat? d
+      let parts ← parseNat? parts
+      let mi ← parseNat? mi
+      let n ← parseNat? n
+      let (ws, rest) ← takeParsed parseNat? n rest
+      let (cs, rest) ← takeParsed parseInt? (n * d) rest
+      match rest with
+      | nz :: rest =>
+        let nz ← parseNat? nz
+        let (_idx, rest) ← takeParsed parseNat? nz rest
+        if rest.isEmpty && (d == 2 || d == 3) then some (d, parts, mi, n, ws, cs) else none
+      | [] => none) with
+    | none => "bad-op"
+    | some (d, parts, mi, n, ws, cs) => handleMj d parts mi n ws cs
+  | ["mjc", _pool, calls, d, parts, mi, n, cshape, wshape, seed] =>
+    -- calling context: `calls` independent runs (call j: n + 13 j points, parts + j % 3 parts,
+    -- seed + j, dimension d or 2 + j % 2 when d = 0); one hash per call
+    match parseNat? calls, parseNat? d, parseNat? parts, parseNat? mi, parseNat? n, parseNat? cshape,
+        parseNat? wshape, parseNat? seed with
+    | some calls, some d, some parts, some mi, some n, some cshape, some wshape, some seed =>
+      if !(d == 0 || d == 2 || d == 3) then "bad-op" else
+      let outs := (List.range calls).map (fun j =>
+        handleMjl (if d == 0 then 2 + j % 2 else d) (parts + j % 3) mi (n + 13 * j) cshape wshape (seed + j) 1)
+      if outs.any (fun o => o.startsWith "skip") then "skip float-sensitive"
+      else if outs.all (fun o => o.startsWith "ok idsh ") then
+        outs.foldl (fun acc o => acc ++ " " ++ ((o.splitOn " ").getLastD "")) "ok ctx"
+      else "bad-op"
+    | _, _, _, _, _, _, _, _ => "bad-op"
   | ["mjl", d, _threads, parts, mi, n, cshape, wshape, seed, cmp] =>
     match parseNat? d, parseNat? parts, parseNat? mi, parseNat? n, parseNat? cshape, parseNat? wshape,
         parseNat? seed, parseNat? cmp with
